@@ -1088,16 +1088,23 @@ mod xml_utils {
 
   /// Returns required textual content of the node.
   pub fn required_content(node: &Node) -> Result<String> {
-    if let Some(text) = node.text() {
-      Ok(text.to_owned())
+    if let Some(text) = optional_content(node) {
+      Ok(text)
     } else {
       Err(xml_expected_mandatory_text_content(node.tag_name().name()))
     }
   }
 
-  /// Returns optional textual content of the node.
+  /// Returns optional textual content of the node: all text children of the node concatenated,
+  /// a comment or a processing instruction between them is not a part of the content.
   pub fn optional_content(node: &Node) -> Option<String> {
-    node.text().map(|text| text.to_owned())
+    let mut content: Option<String> = None;
+    for child_node in node.children().filter(|child_node| child_node.is_text()) {
+      if let Some(text) = child_node.text() {
+        content.get_or_insert_with(String::new).push_str(text);
+      }
+    }
+    content
   }
 
   /// Returns required child node or raises an error when there is no child with given name.
